@@ -1,1 +1,134 @@
-//! cfg(kani) child module of `crates/core/src/backend/decrypt.rs` (harnesses to be added)
+//! C04 harnesses: cfg(kani) child module of `backend/decrypt.rs`.
+//! The REAL `DecryptBackend<C>` is instantiated with `MockKey` (ciphertext = 0xEE marker + plaintext;
+//! decryption fails unless the marker is there and the key's `fail_decrypt` is off) over the recording
+//! mock store.  zstd is off (`zstd: None`; the compressed paths call FFI, which Kani does not support).
+//! `hash` is replaced by a cheap stub (first byte, last byte, length) -- SHA-256 is not under proof.
+use super::*;
+use crate::backend::verif_mock::*;
+use crate::error::verif_kani_stubs as es;
+
+fn hash_stub(data: &[u8]) -> Id {
+    let mut a = [0u8; 32];
+    a[0] = data.first().copied().unwrap_or(0);
+    a[1] = data.last().copied().unwrap_or(0);
+    a[2] = data.len() as u8;
+    Id::new(a)
+}
+
+fn setup(fail_store: u16, key: MockKey, extra_verify: bool) -> (DecryptBackend<MockKey>, Arc<Log>) {
+    let log = Arc::new(Log::new());
+    let store = MockBackend::new(0, fail_store, log.clone());
+    let mut dbe = DecryptBackend::new(Arc::new(store), key);
+    dbe.set_extra_verify(extra_verify);
+    (dbe, log)
+}
+
+/// U04.1 hash_write_full: what reaches storage is exactly one file whose bytes are the key's ciphertext
+/// of the plaintext and whose name is the hash of those stored bytes; if the extra verification cannot
+/// decrypt what was just encrypted, nothing is written.
+#[kani::proof]
+#[kani::unwind(6)]
+#[kani::stub(crate::crypto::hasher::hash, hash_stub)]
+#[kani::stub(crate::error::RusticError::new, es::new_stub)]
+fn c04_hash_write_full_stores_ciphertext_under_its_hash() {
+    let key = MockKey { fail_encrypt: kani::any(), fail_decrypt: kani::any() };
+    let extra_verify: bool = kani::any();
+    let fail_store: u16 = kani::any();
+    let (dbe, log) = setup(fail_store, key, extra_verify);
+    let tpe = any_filetype();
+    let p1: u8 = kani::any();
+    let plain = [b'{', p1, b'}'];
+    let r = dbe.hash_write_full(tpe, &plain);
+    let ok = r.is_ok();
+    let id = r.as_ref().ok().copied();
+    core::mem::forget(r);
+    let cipher = [0xEEu8, b'{', p1, b'}'];
+    if key.fail_encrypt || (extra_verify && key.fail_decrypt) {
+        assert!(!ok && log.len() == 0, "encryption or self-verification failed: error, nothing stored");
+    } else {
+        assert!(log.len() == 1, "exactly one storage operation");
+        let expect_id = hash_stub(&cipher);
+        assert!(log.get(0) == event(0, OP_WRITE, tpe_code(tpe), false, id_tag(&expect_id), 4, 0xEE, 0, 0),
+                "the stored bytes are the ciphertext (marker first, 1 byte longer), the name is their hash");
+        assert!(ok == (fail_store & (1 << OP_WRITE) == 0));
+        if ok { assert!(id == Some(expect_id)); }
+    }
+    kani::cover!(ok && extra_verify);
+    kani::cover!(!ok && log.len() == 0);
+}
+
+/// U04.2 reading: data is returned only if the key authenticated it.
+#[kani::proof]
+#[kani::unwind(6)]
+#[kani::stub(crate::error::RusticError::new, es::new_stub)]
+fn c04_read_from_partial_requires_authentication() {
+    let key = MockKey { fail_encrypt: false, fail_decrypt: kani::any() };
+    let (dbe, _log) = setup(0, key, false);
+    let data: [u8; 3] = [kani::any(), kani::any(), kani::any()];
+    let r = dbe.read_encrypted_from_partial(&data, None);
+    let ok = r.is_ok();
+    if let Ok(b) = &r {
+        assert!(data[0] == 0xEE && !key.fail_decrypt, "Ok only for authenticated ciphertext");
+        assert!(b.len() == 2 && b[0] == data[1] && b[1] == data[2], "and then exactly the plaintext");
+    }
+    assert!(ok == (data[0] == 0xEE && !key.fail_decrypt), "tampered / unauthenticated data is an error");
+    core::mem::forget(r);
+    kani::cover!(ok);
+}
+
+/// U04.4 -- obligation taken from the property statement ("substitution ... makes the affected read fail"):
+/// reading file `id` must not succeed when the store hands back the (authentic) bytes of ANOTHER file,
+/// i.e. bytes whose hash is not `id`.
+#[kani::proof]
+#[kani::unwind(6)]
+#[kani::stub(crate::crypto::hasher::hash, hash_stub)]
+#[kani::stub(crate::error::RusticError::new, es::new_stub)]
+fn c04_read_full_rejects_substituted_file() {
+    let key = MockKey { fail_encrypt: false, fail_decrypt: false };
+    let log = Arc::new(Log::new());
+    // the store answers every read_full with the same authentic ciphertext of some other file
+    let store = SwappedStore { log };
+    let dbe = DecryptBackend::new(Arc::new(store), key);
+    let mut a = [0u8; 32];
+    a[0] = kani::any();
+    let id = Id::new(a);
+    kani::assume(id != hash_stub(&SwappedStore::CONTENT));
+    let r = dbe.read_encrypted_full(FileType::Snapshot, &id);
+    let ok = r.is_ok();
+    core::mem::forget(r);
+    assert!(!ok, "read of a file whose stored bytes do not hash to its id must fail");
+}
+
+#[derive(Debug)]
+struct SwappedStore {
+    log: Arc<Log>,
+}
+impl SwappedStore {
+    const CONTENT: [u8; 3] = [0xEE, b'{', b'}'];
+}
+impl ReadBackend for SwappedStore {
+    fn location(&self) -> String {
+        String::new()
+    }
+    fn list_with_size(&self, _tpe: FileType) -> RusticResult<Vec<(Id, u32)>> {
+        Ok(Vec::new())
+    }
+    fn read_full(&self, _tpe: FileType, _id: &Id) -> RusticResult<Bytes> {
+        self.log.push(1);
+        Ok(Bytes::from_static(&Self::CONTENT))
+    }
+    fn read_partial(&self, _tpe: FileType, _id: &Id, _c: bool, _o: u32, _l: u32) -> RusticResult<Bytes> {
+        Ok(Bytes::from_static(&Self::CONTENT))
+    }
+    fn warmup_path(&self, _tpe: FileType, _id: &Id) -> String {
+        String::new()
+    }
+}
+impl WriteBackend for SwappedStore {
+    fn write_bytes(&self, _tpe: FileType, _id: &Id, _c: bool, _content: BytesList) -> RusticResult<()> {
+        Ok(())
+    }
+    fn remove(&self, _tpe: FileType, _id: &Id, _c: bool) -> RusticResult<()> {
+        Ok(())
+    }
+}
